@@ -54,6 +54,7 @@ var registry = map[string]propDef{
 	"C10v": {"other", props.C10bitvec},
 	"C10k": {"other", props.C10take},
 	"C10p": {"other", props.C06pack},
+	"C10g": {"other", props.C10opening},
 	"C10w": {"other", props.C10setwires},
 	"C19d": {"other", props.C19duality},
 	"C18g": {"other", props.C18guards},
@@ -99,6 +100,7 @@ var registry = map[string]propDef{
 	"C03w": {"other", props.C05wiring},
 	"C03r": {"other", props.C03rewrite},
 	"C03p": {"other", props.C03parallel},
+	"C03l": {"other", props.C03lrvalue},
 	"C12r": {"other", props.C03rewrite},
 	"C12o": {"other", props.C12outputs},
 	"C12g": {"other", props.C12guards},
@@ -145,10 +147,13 @@ var registry = map[string]propDef{
 	"C13f": {"other", props.C13fresh},
 	"C17":  {"other", props.C17},
 	"C17p": {"other", props.C17pool},
+	"C02o": {"other", props.C17pool},
 	"C17h": {"other", props.C17handle},
 	"C17x": {"other", props.C17explicit},
 	"C17u": {"other", props.C17puts},
 	"C01u": {"other", props.C17puts},
+	"C01k": {"other", props.C17kept},
+	"C01l": {"proof", props.C01labels},
 	"C04h": {"other", props.C17handle},
 	"C18h": {"other", props.C17handle},
 	"C14v": {"other", props.C14valid},
